@@ -248,14 +248,38 @@ def _worker(job):
         sprods = [[l, [s for s in rhs if s != [0, e_id]]] for l, rhs in raw]
         out["stripped"] = model_case(gi, g, sp, kind, ps, pse, lexdis, prods=sprods)
     exp = None
+    tab = fs = None
     os.environ["PARGLARE_VERIF_MAX_STATES"] = str(BUDGET)
     t0 = time.time()
+    import traceback
     try:
         with impl.time_limit(30), impl.quiet():
             fs = first(g)
             tab = create_table(g, itemset_type=LR_1 if kind == "LALR" else LR_0, start_production=sp,
                                prefer_shifts=ps, prefer_shifts_over_empty=pse,
                                lexical_disambiguation=lexdis)
+    except GrammarError as e:
+        exp = [1, _gerr_nt(e, gi)]
+    except VerifStateBudgetExceeded as e:
+        exp = [2, int(e.args[0])]
+    except AttributeError:
+        exp = [3, 1]
+        out["trace"] = traceback.format_exc()[-1500:]
+    except ValueError:
+        exp = [3, 2]
+        out["trace"] = traceback.format_exc()[-1500:]
+    except KeyError:
+        exp = [3, 3]
+        out["trace"] = traceback.format_exc()[-1500:]
+    except impl.Timeout:
+        exp = ["timeout"]
+    except BaseException as e:  # noqa
+        exp = ["exception", impl.exc_kind(e)]
+        out["trace"] = traceback.format_exc()[-1500:]
+    finally:
+        os.environ.pop("PARGLARE_VERIF_MAX_STATES", None)
+    if tab is not None:
+        # the dump is outside the try block: an error here is the harness's, not create_table's
         fo = follow(g, fs)
         items = [[[it.production.prod_id, it.position, sorted(gi.term_index(t) for t in it.follow)]
                   for it in s.items] for s in tab.states]
@@ -268,22 +292,6 @@ def _worker(job):
                sr, rr, dyn]
         out["n_states"] = len(tab.states)
         out["conflicts"] = len(sr) + len(rr)
-    except GrammarError as e:
-        exp = [1, _gerr_nt(e, gi)]
-    except VerifStateBudgetExceeded as e:
-        exp = [2, int(e.args[0])]
-    except AttributeError:
-        exp = [3, 1]
-    except ValueError:
-        exp = [3, 2]
-    except KeyError:
-        exp = [3, 3]
-    except impl.Timeout:
-        exp = ["timeout"]
-    except BaseException as e:  # noqa
-        exp = ["exception", impl.exc_kind(e)]
-    finally:
-        os.environ.pop("PARGLARE_VERIF_MAX_STATES", None)
     out["impl_s"] = time.time() - t0
     out["expected"] = exp
     return out
@@ -384,7 +392,8 @@ def run(ctx, skip_texts=()):
     st = {"jobs": len(jobs), "grammar_errors": 0, "compared": 0, "agree": 0, "disagree": 0,
           "by_family": {}, "by_outcome": {}, "by_kind": {"LALR": 0, "SLR": 0}, "impl_timeouts": 0,
           "budget_exceeded_both": 0, "states_max": 0, "with_conflicts": 0, "strip_checked": 0,
-          "strip_agree": 0, "options": {}}
+          "strip_agree": 0, "options": {}, "theorem_candidates": 0, "plain_ok": 0, "plain_ok_tables": 0,
+          "theorem_instances_confirmed": 0}
     mcases, idx = [], []
     for i, r in enumerate(results):
         if r["gerr"]:
@@ -402,6 +411,10 @@ def run(ctx, skip_texts=()):
             continue
         idx.append((i, "raw"))
         mcases.append((220, r["case"]))
+        if not r["job"][5] and not r["job"][6]:
+            # no prefer-shifts strategy: a candidate for the class of the end-to-end theorems
+            idx.append((i, "theorem"))
+            mcases.append((224, r["case"]))
         if r["stripped"] is not None:
             idx.append((i, "stripped"))
             mcases.append((220, r["stripped"]))
@@ -411,6 +424,23 @@ def run(ctx, skip_texts=()):
     for (i, what), o in zip(idx, outs):
         r = results[i]
         fam, name, text, start, kind, ps, pse, lexdis = r["job"]
+        if what == "theorem":
+            # C05_model_table_complete / C05_model_table_struct: plain_ok and a table => both validators
+            # accept the model's table with the model's own annotation.  Evaluated on the generated
+            # grammars (how large the class is in practice; a failure would be a bug in the glue)
+            st["theorem_candidates"] += 1
+            if o[0] == 1:
+                st["plain_ok"] += 1
+                if o[1]:
+                    st["plain_ok_tables"] += 1
+                    if o[1] == [1, 1]:
+                        st["theorem_instances_confirmed"] += 1
+                    else:
+                        ctx.violation("the extracted validators reject a table for which C05_model_table_complete/"
+                                      "_struct apply (plain_ok holds): glue or extraction is broken",
+                                      {"grammar": text, "table_kind": kind, "result": o}, no_input=True,
+                                      key="tabcorr-theorem-instance")
+            continue
         got = canon(o)
         if what == "stripped":
             st["strip_checked"] += 1
@@ -444,6 +474,15 @@ def run(ctx, skip_texts=()):
             if exp[0] == 0 and len(samples) < 2 and r["n_states"] <= 6:
                 samples.append({"grammar": text, "kind": kind, "states": r["n_states"], "table": exp[1]})
             continue
+        # a disagreement is re-evaluated once in this process before it is reported (a worker of the
+        # pool under heavy machine load once produced an exception that could not be reproduced)
+        r2 = _worker(r["job"])
+        if not r2["gerr"] and r2["expected"] == got:
+            st["not_reproduced"] = st.get("not_reproduced", 0) + 1
+            ctx.notes.append("table_build_correspondence: a disagreement was not reproduced on re-evaluation: %r %s "
+                             "impl first said %r; traceback: %s" % (text, kind, exp[:2], r.get("trace")))
+            st["agree"] += 1
+            continue
         st["disagree"] += 1
         if isinstance(text, str) and text in skip_texts:
             continue
@@ -452,7 +491,7 @@ def run(ctx, skip_texts=()):
                       % (d.split(":")[0] if d else "?"),
                       {"correspondence": "table_build_correspondence", "grammar": text, "table_kind": kind,
                        "prefer_shifts": ps, "prefer_shifts_over_empty": pse, "lexical_disambiguation": lexdis,
-                       "start_rule": start, "difference": d, "family": fam},
+                       "start_rule": start, "difference": d, "family": fam, "impl_traceback": r.get("trace")},
                       no_input=True, key="tabcorr-" + re.sub(r"\d+", "N", (d.split(":")[0] if d else "?"))[:40])
     # extraction cross-check of a sample of the model runs
     nx, xok, xlog = common.coq_crosscheck("TAB", mcases, outs, ctx.rng, sample=6 if quick else 40)
